@@ -327,6 +327,15 @@ def rule_peg_combinators(ctx):
                 f"leaf parser `{name}` slices its input by {idx} instead of `{needle}..`: a multi-byte character makes the slice start inside a character (panic) or skips the wrong amount",
                 {},
             )
+    # `any_char` / `take_any_char` accept *any* character: nothing filters what `chars().next()` yields
+    for name in ("any_char", "take_any_char"):
+        fn = ex.fns.get(name)
+        ms = [m["method"]["sym"] for m, _ in A.method_calls(fn.block)]
+        ctx.instance(f"leaf:{name}:any")
+        extra = [m for m in ms if m in ("filter", "take_while", "skip_while", "filter_map", "find", "take_if", "is_some_and") or m.startswith("is_")]
+        conds = [x for x, _ in A.walk(fn.block) if A.kind(x) in ("Expr::If", "Expr::Match")]
+        if extra or conds:
+            ctx.report(f"leaf:{name}:filtered", ctx.where(f, fn.node), f"`{name}` no longer accepts every character ({extra or 'a condition'}): the fill character of `[[fill]align]` may be any character in std, `{{:}}>4}}` included", {})
     for name in ("take_while0", "take_while1", "take_until1"):
         fn = ex.fns.get(name)
         if fn is None:
